@@ -21,7 +21,7 @@ LEVEL = "fault_enumeration"
 RULE = ("one evaluation = one observed (block, sub_block_list, replaced-subset) triple captured at the rebuild seam, checked for: "
         "join of sub-blocks == optimizable instructions, every specification key names a reported sub-block, source-stack sizes chain, "
         "and rebuild result == independent positional rebuild; the replaced subset is driven by the solver peer (all fail / exactly k / "
-        "seeded subset / all succeed via greedy); non-trivial = the block has >= 2 sub-blocks; distinct = digest of (block, policy, subset)")
+        "seeded subset / all succeed via greedy), and by the harness directly (rebuild probe: empty / own / neutral / split-instruction-copy replacements of every sub-block); non-trivial = the block has >= 2 sub-blocks; distinct = digest of (block, policy, subset)")
 COMPONENTS = {"real": ["ir_block.evm2rbr_compiler / generate_subblocks, rebuild_optimized_asm_block, process_blocks_split, whole CLI path",
                        "z3 4.8.12 peer", "greedy"], "stub": ["SimFS", "SimClock"]}
 ASSUMPTIONS = ["per block the single-success patterns are enumerated up to 5 sub-blocks (all of them when m <= 5), base blocks are sampled",
@@ -323,12 +323,28 @@ def task(spec):
 def check_get_subblocks(text, flags, policy, summ):
     """ir_block.get_subblocks (the other entry point that reports sub-blocks) must report what evm2rbr_compiler reports."""
     from gsim.core import pipe, procs
-    st, recs = procs.run_sut(pipe.run_specs, {"argv": flags, "blocks": [text], "get_subblocks": True}, cpu_s=120)
+    st, recs = procs.run_sut(pipe.run_specs, {"argv": flags, "blocks": [text], "get_subblocks": True, "rebuild_probe": True}, cpu_s=120)
     if st != "ok" or not recs or "subs" not in recs[0]:
         return []
     rec = recs[0]
     summ["evals"] += 1
     rp = {"kind": "get_subblocks", "block": text, "flags": flags, "policy": policy}
+    # rebuild driven with harness-chosen replacements (forall k, R of the property): nothing replaced is the identity, one or two
+    # replaced sub-blocks change only their segments
+    for r in rec.get("rebuild_probe", []):
+        summ["evals"] += 1
+        replaced = sorted(r["optimized"].keys())
+        if "probes" in summ:
+            summ["probes"]["rebuild_probe"] = 1 + summ["probes"].get("rebuild_probe", 0)
+        if "exc" in r:
+            return [{"class": ["rebuild-probe", "raises", policy], "detail": "rebuild with replaced=%s (%r) raised %s | block %s | flags %s" % (
+                replaced, r["optimized"], r["exc"], text, " ".join(flags)), "replay": rp}]
+        exp = positional_rebuild(r)
+        got = [tuple(x) for x in r["result"]]
+        if exp != got:
+            return [{"class": ["rebuild-probe", "identity" if not replaced else "segment", policy],
+                     "detail": "rebuild with %r gave %s, expected %s | block %s | flags %s" % (
+                         r["optimized"], " ".join(plain(x) for x in got), " ".join(plain(x) for x in exp), text, " ".join(flags)), "replay": rp}]
     if "get_subblocks_exc" in rec:
         return [{"class": ["get_subblocks", "raises", policy], "detail": "get_subblocks raised %s | block %s | flags %s" % (
             rec["get_subblocks_exc"], text, " ".join(flags)), "replay": rp}]
